@@ -525,7 +525,8 @@ pub fn spaces_c03(tier: Tier) -> Vec<Space> {
             let pk = PrivateKey::from_hex(keyhex).map_err(|e| e.to_string())?;
             let sig = t.sign(&pk, flag_to_sighash(flag).unwrap(), *idx, &script, value).map_err(|e| e.to_string())?;
             let bytes = sig.to_bytes().map_err(|e| e.to_string())?;
-            let ok = t.verify(&PublicKey::from_private_key(&pk), &sig);
+            // verify and its digest-level twin _verify (plain byte order) must both accept the library's own signature
+            let ok = t.verify(&PublicKey::from_private_key(&pk), &sig) && t._verify(&PublicKey::from_private_key(&pk), &sig, false);
             Ok::<_, String>((bytes, ok))
         });
         match (lib, want) {
